@@ -728,6 +728,7 @@ type world struct {
 	extDeleted, extExpired, prepWrites, prefailWrites int
 	extExpiredSlack                                   int // entries already expired when an external ExpireAll ran
 	extWrites                                         int // external writes of neighbour keys (ctlOpts.extCleanup)
+	foreignErr                                        map[bool]error
 }
 
 func newWorld(c *Case, cfg foCfg) *world {
@@ -889,7 +890,7 @@ type getSpec struct {
 	skipRead bool
 	// builder script: outcome of the invocation made for this Get (a Get builds at most once)
 	buildFails bool
-	errKind    int             // 0 plain, 1 wraps context.Canceled, 2 wraps context.DeadlineExceeded, 3 wraps cache.ErrNotFound, 4 wraps cache.ErrExpired
+	errKind    int             // 0 plain, 1 wraps context.Canceled, 2 wraps context.DeadlineExceeded, 3 wraps cache.ErrNotFound, 4 wraps cache.ErrExpired, 5/6 wraps the expiry error (with item) another cache returned
 	builderTTL []time.Duration // WithTTL(ctx, t, true) calls made by the builder
 	nestedKey  []byte          // the builder itself calls Get for this (other, "later") key of the same frontend with its own context
 	// post-return caller actions
@@ -963,6 +964,10 @@ func (w *world) builderFor(g *getSpec, t *task) func(ctx context.Context) (strin
 				be.cause = cache.ErrNotFound
 			case 4:
 				be.cause = cache.ErrExpired
+			case 5, 6:
+				// the builder read another cache of this library and passes on what it got there:
+				// an expiry error that carries an item (of that other cache, not of this key)
+				be.cause = w.foreignExpired(g.errKind == 6)
 			}
 
 			rec.err = be
@@ -979,6 +984,10 @@ func (w *world) builderFor(g *getSpec, t *task) func(ctx context.Context) (strin
 
 // startGet launches the goroutine performing Get number i.
 func (w *world) startGet(g *getSpec) {
+	if g.buildFails && g.errKind >= 5 {
+		w.foreignExpired(g.errKind == 6) // prepared on the controller goroutine, the builder only picks it up
+	}
+
 	t := &task{id: g.idx, name: fmt.Sprintf("g%d", g.idx), get: g}
 	rec := &getRec{idx: g.idx, task: t.name, key: string(g.key), startStep: w.s.step}
 
@@ -1323,4 +1332,34 @@ func (w *world) reportProblems() {
 
 		w.c.Failf(sig, "%s", ps[0])
 	}
+}
+
+// foreignExpired returns the error a Read of an expired entry of some OTHER cache (non-generic or
+// ShardedMapOf[string]) yields: it carries that cache's item, which has nothing to do with the keys
+// of the frontend under test.
+func (w *world) foreignExpired(generic bool) error {
+	if w.foreignErr[generic] != nil {
+		return w.foreignErr[generic]
+	}
+
+	kind := kindSharded
+	if generic {
+		kind = kindShardedOf
+	}
+
+	other := newCaseBackend(w.c, kind, cache.Config{
+		Name: "other", TimeToLive: time.Hour, ExpirationJitter: -1,
+		DeleteExpiredJobInterval: farFuture, DeleteExpiredAfter: farFuture, ItemsCountReportInterval: farFuture,
+	})
+	_ = other.Write(ttlCtx(-time.Minute), []byte("elsewhere"), "value-of-another-cache")
+	r := other.Read(bg, []byte("elsewhere"))
+
+	if w.foreignErr == nil {
+		w.foreignErr = map[bool]error{}
+	}
+
+	w.foreignErr[generic] = r.Err
+	w.c.Class("failure-wraps-expired-item-of-another-cache")
+
+	return r.Err
 }
